@@ -410,7 +410,7 @@ func (p *Pollard) Verify(delHashes []Hash, proof Proof, remember bool) error {
 			len(proof.Targets), len(delHashes))
 	}
 
-	_, rootCandidates, err := calculateHashes(p.NumLeaves, delHashes, proof)
+	_, rootCandidates, candidatePositions, err := calculateHashesAndRootPositions(p.NumLeaves, delHashes, proof)
 	if err != nil {
 		return err
 	}
@@ -419,10 +419,14 @@ func (p *Pollard) Verify(delHashes []Hash, proof Proof, remember bool) error {
 			"but have %d deletions", len(delHashes))
 	}
 
+	// A calculated root must match the root at the position it was calculated for.
+	rootPositions := RootPositions(p.NumLeaves, TreeRows(p.NumLeaves))
 	rootMatches := 0
 	for i := range p.Roots {
-		if len(rootCandidates) > rootMatches &&
-			p.Roots[len(p.Roots)-(i+1)].data == rootCandidates[rootMatches] {
+		idx := len(p.Roots) - (i + 1)
+		if len(rootCandidates) > rootMatches && idx < len(rootPositions) &&
+			rootPositions[idx] == candidatePositions[rootMatches] &&
+			p.Roots[idx].data == rootCandidates[rootMatches] {
 			rootMatches++
 		}
 	}
@@ -541,6 +545,16 @@ func getNextPos(slice1, slice2 []uint64, slice1Idx, slice2Idx int) (uint64, int,
 // hashes of the roots and the nodes used to calculate the roots after the
 // deletion of the targets.
 func calculateHashes(numLeaves uint64, delHashes []Hash, proof Proof) (hashAndPos, []Hash, error) {
+	nodes, rootHashes, _, err := calculateHashesAndRootPositions(numLeaves, delHashes, proof)
+	return nodes, rootHashes, err
+}
+
+// calculateHashesAndRootPositions is calculateHashes that also returns the position of
+// each of the calculated roots so that the caller can match a calculated root against
+// the root at that position.
+func calculateHashesAndRootPositions(numLeaves uint64, delHashes []Hash, proof Proof) (
+	hashAndPos, []Hash, []uint64, error) {
+
 	totalRows := TreeRows(numLeaves)
 
 	// Where all the parent hashes we've calculated in a given row will go to.
@@ -559,13 +573,14 @@ func calculateHashes(numLeaves uint64, delHashes []Hash, proof Proof) (hashAndPo
 	// next to each other.
 	for i := 1; i < len(toProve.positions); i++ {
 		if toProve.positions[i-1] == toProve.positions[i] {
-			return hashAndPos{}, nil, fmt.Errorf("invalid proof. Target %d "+
+			return hashAndPos{}, nil, nil, fmt.Errorf("invalid proof. Target %d "+
 				"is given more than once", toProve.positions[i])
 		}
 	}
 
 	// Where all the root hashes that we've calculated will go to.
 	calculatedRootHashes := make([]Hash, 0, numRoots(numLeaves))
+	calculatedRootPositions := make([]uint64, 0, numRoots(numLeaves))
 
 	// Separate index for the hashes in the passed in proof.
 	proofHashIdx := 0
@@ -593,7 +608,7 @@ func calculateHashes(numLeaves uint64, delHashes []Hash, proof Proof) (hashAndPo
 		for provePos > maxPos {
 			row++
 			if row > totalRows {
-				return hashAndPos{}, nil, fmt.Errorf("invalid proof. Position %d "+
+				return hashAndPos{}, nil, nil, fmt.Errorf("invalid proof. Position %d "+
 					"does not exist in an accumulator with %d leaves", provePos, numLeaves)
 			}
 			maxPos, _ = maxPositionAtRow(row, totalRows, numLeaves)
@@ -602,6 +617,7 @@ func calculateHashes(numLeaves uint64, delHashes []Hash, proof Proof) (hashAndPo
 		// This means we hashed all the way to the top of this subtree.
 		if isRootPositionOnRow(provePos, numLeaves, row) {
 			calculatedRootHashes = append(calculatedRootHashes, proveHash)
+			calculatedRootPositions = append(calculatedRootPositions, provePos)
 			continue
 		}
 
@@ -617,7 +633,7 @@ func calculateHashes(numLeaves uint64, delHashes []Hash, proof Proof) (hashAndPo
 			}
 		} else {
 			if len(proof.Proof) <= proofHashIdx {
-				return hashAndPos{}, nil, fmt.Errorf("invalid proof. Proof too short.")
+				return hashAndPos{}, nil, nil, fmt.Errorf("invalid proof. Proof too short.")
 			}
 
 			// If the next prove isn't the sibling of this prove, we fetch
@@ -634,7 +650,7 @@ func calculateHashes(numLeaves uint64, delHashes []Hash, proof Proof) (hashAndPo
 	// Add in the targets as well since we need them as well to calculate up
 	// to the roots.
 	nextProves = mergeSortedHashAndPos(nextProves, toProve)
-	return nextProves, calculatedRootHashes, nil
+	return nextProves, calculatedRootHashes, calculatedRootPositions, nil
 }
 
 func mergeSortedSlicesFunc[E any](a, b []E, cmp func(E, E) int) (c []E) {
